@@ -18,6 +18,7 @@ type KnownFinding struct {
 	Kind       string // "known" or "fixed"
 	Property   string
 	Obligation string
+	Scenario   string // contract expression over the function's inputs describing the failing input/history
 	Text       string
 }
 
@@ -42,6 +43,12 @@ func loadKnown(path string) []KnownFinding {
 			l = strings.TrimSpace(strings.TrimPrefix(l, "fixed:"))
 		default:
 			continue
+		}
+		if i := strings.Index(l, "scenario={{"); i >= 0 {
+			if j := strings.Index(l[i:], "}}"); j > 0 {
+				kf.Scenario = strings.TrimSpace(l[i+len("scenario={{") : i+j])
+				l = l[:i] + l[i+j+2:]
+			}
 		}
 		for _, f := range strings.Fields(l) {
 			if strings.HasPrefix(f, "property=") {
@@ -234,17 +241,20 @@ func cmdCheck(args []string) int {
 	workers := 6
 	jsem := make(chan struct{}, workers)
 	var jwg sync.WaitGroup
-	for _, j := range jobs {
+	// rendering touches the (not thread-safe) term pool of the function's executor: do it sequentially
+	files := make([]string, len(jobs))
+	for i, j := range jobs {
+		files[i] = oblFile(outDir, j.o.Name)
+		writeFile(files[i], j.rep.ex.Render(j.o))
+	}
+	for i, j := range jobs {
 		jwg.Add(1)
-		go func(j job) {
+		go func(i int, j job) {
 			defer jwg.Done()
 			jsem <- struct{}{}
 			defer func() { <-jsem }()
-			file := oblFile(outDir, j.o.Name)
-			script := j.rep.ex.Render(j.o)
-			writeFile(file, script)
-			j.o.Result = Solve(file, to, *tier == "thorough", j.o.Kind == "requires-sat" || j.o.Kind == "reach")
-		}(j)
+			j.o.Result = Solve(files[i], to, *tier == "thorough", j.o.Kind == "requires-sat" || j.o.Kind == "reach")
+		}(i, j)
 	}
 	jwg.Wait()
 
@@ -329,10 +339,28 @@ func cmdCheck(args []string) int {
 			}
 			continue
 		}
-		if matchKnown(known, *prop, o.Name) {
-			fmt.Printf("KNOWN-FINDING: property=%s %s (%s)\n", *prop, o.Name, o.Detail)
-			knownHits++
-			continue
+		if kf := findKnown(known, *prop, o.Name); kf != nil {
+			if kf.Scenario == "" {
+				fmt.Printf("KNOWN-FINDING: property=%s %s (%s)\n", *prop, o.Name, kf.Text)
+				knownHits++
+				continue
+			}
+			// the finding is identified by a scenario: outside it the obligation must still hold
+			if j.rep.pre != nil {
+				ok, why := j.rep.holdsOutside(o, kf.Scenario, outDir, to)
+				if ok {
+					txt := kf.Text
+					if i := strings.Index(txt, "::"); i >= 0 {
+						txt = strings.TrimSpace(txt[i+2:])
+					}
+					fmt.Printf("KNOWN-FINDING: property=%s %s fails exactly in the recorded scenario: %s\n", *prop, o.Name, txt)
+					knownHits++
+					discharged++
+					byBackend["outside-known-scenario"]++
+					continue
+				}
+				fmt.Printf("note: %s also fails outside the recorded known-finding scenario (%s)\n", o.Name, why)
+			}
 		}
 		violations++
 		fmt.Printf("FAILED %s [%s] %s  (%s; at %s)\n", o.Name, r.Status, o.Detail, r.Backend, o.Pos)
@@ -448,6 +476,15 @@ var trustedBase = []string{
 var standingAssumptions = []string{
 	"no data races: mutex operations are no-ops in the verification conditions",
 	"termination is only proved where a decreases clause is given",
+}
+
+func findKnown(known []KnownFinding, prop, name string) *KnownFinding {
+	for i, k := range known {
+		if k.Kind == "known" && k.Property == prop && k.Obligation == name {
+			return &known[i]
+		}
+	}
+	return nil
 }
 
 func matchKnown(known []KnownFinding, prop, name string) bool {
